@@ -246,16 +246,41 @@ impl<W: Write + io::Seek> ZipWriter<W> {
 pub open spec fn dir_start_of(files: Seq<ZipFileData>) -> int { if files.len() > 0 { files[0].central_header_start as int } else { 0 } }
 pub uninterp spec fn append_offset(files: Seq<ZipFileData>, d: Seq<u8>) -> u64;
 // T7x in new_append: `(0..n).map(|_| central_header_to_zip_file(..)).collect::<Result<Vec<_>, _>>()?`
-// ASSUMED: collect of n calls = the first Err, or the Ok values in order; the effect of the n calls is the loop
-// proved for ZipArchive::new in unit U8b (same callee contract), restated here
-#[verifier::external_body]
+// TRANSCRIPTION of `(0..n).map(|_| f()).collect::<Result<Vec<_>, _>>()` (std: the adapter calls the closure once per index, in
+// order, and `collect` into Result stops at the first Err, otherwise gathers the Ok values in order).  The body is VERIFIED
+// against central_header_to_zip_file's proved contract; it is the same loop that is proved for ZipArchive::new in unit U8b.
 fn shim_collect_central<R: Read + io::Seek>(reader: &mut R, archive_offset: u64, n: usize) -> (r: ZipResult<Vec<ZipFileData>>)
     requires dev_ok(old(reader)),
     ensures
         rd_step(old(reader), final(reader)),
         r is Ok ==> final(reader).g_fault() == old(reader).g_fault(),
         r matches Ok(files) ==> files@.len() == n && dir_parsed(old(reader).g_bytes(), old(reader).g_pos(), files@, archive_offset),
-{ unimplemented!() }
+{
+    let ghost d = reader.g_bytes();
+    let ghost start = reader.g_pos();
+    let ghost flt = reader.g_fault();
+    let mut files: Vec<ZipFileData> = Vec::new();
+    let mut i: usize = 0;
+    while i < n
+        invariant
+            dev_ok(reader), reader.g_bytes() == d, reader.g_fault() == flt, rd_step(old(reader), reader),
+            d == old(reader).g_bytes(), start == old(reader).g_pos(), flt == old(reader).g_fault(),
+            i <= n, files@.len() == i,
+            reader.g_pos() == cd_pos(d, start, i as int),
+            dir_parsed(d, start, files@, archive_offset),
+        decreases n - i,
+    {
+        let ghost fs0 = files@;
+        let file = central_header_to_zip_file(reader, archive_offset)?;
+        files.push(file);
+        i += 1;
+        proof {
+            assert(forall|j: int| 0 <= j < fs0.len() ==> files@[j] == fs0[j]);
+            assert(files@[fs0.len() as int] == file);
+        }
+    }
+    Ok(files)
+}
 // parsed entries carry DOS times, whose year is at least 1980 (DateTime::from_msdos, proved in U6)
 pub proof fn lemma_parsed_files_ok(d: Seq<u8>, start: int, files: Seq<ZipFileData>, aoff: u64)
     requires dir_parsed(d, start, files, aoff)
